@@ -63,6 +63,10 @@ func RefDecode(b []byte) refRes {
 	return refRes{state: "ok", fr: fr, rem: len(rem) - int(length)}
 }
 
+func (r refRes) State() string        { return r.state }
+func (r refRes) Frame() drpcwire.Frame { return r.fr }
+func (r refRes) Rem() int              { return r.rem }
+
 func showFrame(fr drpcwire.Frame, rem int) string {
 	return fmt.Sprintf("ok kind=%d done=%s ctl=%s sid=%d mid=%d data=%s rem=%d",
 		fr.Kind, corr.B01(fr.Done), corr.B01(fr.Control), fr.ID.Stream, fr.ID.Message, corr.Hex(fr.Data), rem)
